@@ -210,6 +210,22 @@ def run_history(sc, seed, i, known, stats):
             fl.update({"delete": 1, "thr": thr})
         if "--checksum" in aux:
             fl["ck"] = 1
+            # silent corruption of a destination file (same size, same mtime, other bytes) in BOTH twins: --checksum has to repair it,
+            # with or without a database left by earlier runs
+            if k >= 2 and r.random() < 0.8:
+                cands = [p for p in sorted(x for x in state if not x.startswith("\0")) if os.path.isfile(os.path.join(da, p)) and os.path.isfile(os.path.join(db, p))
+                         and os.path.getsize(os.path.join(da, p)) > 0 and world.sha(os.path.join(da, p)) == world.sha(os.path.join(db, p))
+                         and os.path.isfile(os.path.join(src, p)) and world.sha(os.path.join(src, p)) == world.sha(os.path.join(da, p))
+                         and os.stat(os.path.join(src, p)).st_mtime_ns == os.stat(os.path.join(da, p)).st_mtime_ns]     # in sync and not edited in this step
+                if cands:
+                    victim = r.choice(cands)
+                    for root in (da, db):
+                        fp = os.path.join(root, victim)
+                        st_ = os.stat(fp)
+                        with open(fp, "r+b") as fh:
+                            b0 = fh.read(1); fh.seek(0); fh.write(bytes([b0[0] ^ 0x5A]))
+                        os.utime(fp, ns=(st_.st_atime_ns, st_.st_mtime_ns))
+                    history.append([("corrupt-destination", victim)])
         dmg = damage(r, db) if k > 1 and r.random() < 0.4 and i % 2 == 0 else []      # odd histories keep their files intact (hits need surviving rows)
         if name == "state" and k >= 2:
             # a VALID state file listing some current source paths as completed (public ResumeState API)
